@@ -119,7 +119,7 @@ Fixpoint probe_verdict (now : N) (s : state) (ws : list rec) (p : probe) : bool 
       let ok := all_default obs && sitems_eqb (map to_sitem obs) sp in
       (negb agree, negb ok, if ok then 0 else classify_scan s 1 readTs pw (o_rev o) (o_all o) agree obs sp)
   | PGets readTs pw obs =>
-      let model u := txn_get now s readTs pw (sbase u) in
+      let model u := txn_get current now s readTs pw (sbase u) in
       let oeq (a b : option bytes) := match a, b with
                                        | None, None => true
                                        | Some x, Some y => bytes_eqb x y
@@ -128,11 +128,9 @@ Fixpoint probe_verdict (now : N) (s : state) (ws : list rec) (p : probe) : bool 
       let agree := forallb (fun kv => oeq (model (fst kv)) (snd kv)) obs in
       let ok := forallb (fun kv => oeq (spec_get now ws pw readTs (fst kv)) (snd kv)) obs in
       let badkv := filter (fun kv => negb (oeq (spec_get now ws pw readTs (fst kv)) (snd kv))) obs in
-      let empty kv := oeq (spec_get now ws pw readTs (fst kv)) (Some []) && oeq (snd kv) None in
       (negb agree, negb ok,
        if ok then 0
        else if agree && forallb (fun kv => has_dup s (sbase (fst kv))) badkv then 1
-       else if agree && forallb (fun kv => has_dup s (sbase (fst kv)) || empty kv) badkv then 5
        else 0)
   end.
 
